@@ -171,6 +171,8 @@ def run(prop, tier):
         for sp in set(b.get("spaces", []) + b.get("san_spaces", [])):
             out = subprocess.run([exe, "space", "--name", sp, "--repo", build.REPO, "--features", FEATURES], stdout=subprocess.PIPE, text=True).stdout
             spaces[sp] = json.loads(out)["total"]
+            if sp == "stress":
+                stress_head = json.loads(out).get("handsized", 300)
         # job list: (exe, args, count) split into NCPU worker processes each
         jobs = []
 
@@ -187,7 +189,7 @@ def run(prop, tier):
         def add_space(prefix, ex, sp):
             if sp == "stress" and tier == "quick":
                 # the hand-sized families completely, the 53 100-entry operator/type matrix one sixth per run (offset by seed)
-                head = min(300, spaces[sp])
+                head = min(stress_head, spaces[sp])
                 add(prefix + sp, ex, ["--space", sp], head, NCPU, seed)
                 add(prefix + sp, ex, ["--space", sp], spaces[sp], NCPU, seed, first=head + seed % 6, step=6)
             else:
